@@ -371,7 +371,7 @@ func TestVerifC37(t *testing.T) {
 		}
 	}()
 	verifutil.Main(t, &verifutil.Harness{
-		ID: "C37", Exec: verifC37Exec, Gen: verifC37Gen, Quick: 6000, Thorough: 300000,
+		ID: "C37", Exec: verifC37Exec, Gen: verifC37Gen, Quick: 5000, Thorough: 100000,
 		Class:      verifC37Class,
 		NonTrivial: func(op, impl string) bool { return strings.HasPrefix(op, "log") },
 	})
